@@ -409,11 +409,21 @@ func (r *retryRun) isUp(c *sConn) bool {
 
 func msgTopic(m int) string { return fmt.Sprintf("t/%d", m%3) }
 
+// presetID: messages 3, 7, 11, … of a script carry a caller-chosen identifier (the Lean oracle applies the same rule)
+func presetID(m, qos int) uint16 {
+	if m%4 == 3 && qos > 0 {
+		return uint16(20000 + m)
+	}
+	return 0
+}
+
 func msgOf(m int, qos int) *mqtt.Message {
 	return &mqtt.Message{Topic: msgTopic(m), Payload: []byte{byte(m >> 8), byte(m), 0xAB}, QoS: mqtt.QoS(qos), Retain: m%2 == 1,
 		// the application may hand over a Message whose Dup field is already set (e.g. one it received): the first
 		// transmission must still go out with DUP=0 (MQTT-3.3.1-1)
-		Dup: m%3 == 2}
+		Dup: m%3 == 2,
+		// … and may have chosen the packet identifier itself (C15: used unchanged on every transmission)
+		ID: presetID(m, qos)}
 }
 
 func (r *retryRun) counters() planPoint {
